@@ -42,6 +42,7 @@ type seqInst struct {
 	kind  string
 	l     listX
 	probe []int // value universe + one absent value for IndexOf / Contains probes
+	zeros bool  // float elements -1, -0, +0, 1, 2 behind the codes 0..4 (fam_dflt.go)
 }
 
 func newList(kind string, vs ...int) listX {
@@ -137,7 +138,11 @@ func (x *seqInst) Do(c Call) []any {
 	case "String":
 		return []any{firstLine(l.String())}
 	case "New":
-		x.l = newList(x.kind, append([]int(nil), c.Vs...)...)
+		if x.zeros {
+			x.l = newZeroList(x.kind, append([]int(nil), c.Vs...)...)
+		} else {
+			x.l = newList(x.kind, append([]int(nil), c.Vs...)...)
+		}
 	case "FromJSON":
 		return []any{l.(jsonable).FromJSON(mustJSON(ints(c.Vs))) == nil}
 	default:
@@ -154,9 +159,13 @@ type seqUniverse struct {
 	cmps    []string
 	huge    bool
 	capOnly bool // narrow universe used to cross the array list's capacity thresholds
+	zeros   bool // float elements incl. -0 and +0, comparators finer than == (fam_dflt.go)
 }
 
 func (u *seqUniverse) New() Inst {
+	if u.zeros { // values 1, 2 are the two zeros: the == based IndexOf / Contains are only asked about the other values
+		return &seqInst{kind: u.kind, l: newZeroList(u.kind), probe: []int{0, 3, 99}, zeros: true}
+	}
 	return &seqInst{kind: u.kind, l: newList(u.kind), probe: append(append([]int{}, u.vals...), 99)}
 }
 func (u *seqUniverse) Inside(x Inst) bool { return x.(*seqInst).l.Size() <= u.maxLen }
@@ -234,8 +243,11 @@ func (u *seqUniverse) Calls(x Inst) []Call {
 		cs = append(cs, Call{Op: "Sort", Cmp: c})
 	}
 	cs = append(cs, Call{Op: "Clear"}, Call{Op: "Size"}, Call{Op: "Empty"}, Call{Op: "Values"}, Call{Op: "String"},
-		Call{Op: "Contains", Vs: []int{}}, Call{Op: "IndexOf", V: 99},
-		Call{Op: "FromJSON", Vs: []int{}}, Call{Op: "FromJSON", Vs: []int{2, 0}}, Call{Op: "FromJSON", Vs: []int{1, 1, 0}})
+		Call{Op: "Contains", Vs: []int{}}, Call{Op: "IndexOf", V: 99})
+	if u.zeros {
+		return append(cs, Call{Op: "IndexOf", V: 3}, Call{Op: "Contains", Vs: []int{3}}, Call{Op: "Contains", Vs: []int{3, 99}}, Call{Op: "IndexOf", V: 0})
+	}
+	cs = append(cs, Call{Op: "FromJSON", Vs: []int{}}, Call{Op: "FromJSON", Vs: []int{2, 0}}, Call{Op: "FromJSON", Vs: []int{1, 1, 0}})
 	for _, v := range u.vals {
 		cs = append(cs, Call{Op: "IndexOf", V: v}, Call{Op: "Contains", Vs: []int{v}}, Call{Op: "Contains", Vs: []int{v, 99}})
 		for _, w := range u.vals {
@@ -400,8 +412,24 @@ func queDisc(kind string) string {
 func (x *queInst) Fam() string  { return "que" }
 func (x *queInst) Kind() string { return x.kind }
 func (x *queInst) Cfg() Ev {
-	return Ev{"zero": 0, "disc": queDisc(x.kind), "cap": x.cap}
+	return Ev{"zero": 0, "disc": queDisc(x.kind), "cap": clamp(x.cap)}
 }
+
+// zsRing: a circular buffer of ZERO-SIZE elements, which makes every capacity up to MaxInt allocatable; seen by the
+// queue family as a ring of zeros (the capacity is logged clamped: such a ring never gets full)
+type zsRing struct {
+	q *circularbuffer.Queue[struct{}]
+}
+
+func (z zsRing) Enqueue(int)          { z.q.Enqueue(struct{}{}) }
+func (z zsRing) Dequeue() (int, bool) { _, ok := z.q.Dequeue(); return 0, ok }
+func (z zsRing) Peek() (int, bool)    { _, ok := z.q.Peek(); return 0, ok }
+func (z zsRing) Empty() bool          { return z.q.Empty() }
+func (z zsRing) Full() bool           { return z.q.Full() }
+func (z zsRing) Size() int            { return z.q.Size() }
+func (z zsRing) Clear()               { z.q.Clear() }
+func (z zsRing) String() string       { return z.q.String() }
+func (z zsRing) Values() []int        { return make([]int, len(z.q.Values())) }
 func (x *queInst) Target() any        { return x.q }
 func (x *queInst) Mask() reflect.Type { return nil }
 func (x *queInst) Mutates(op string) bool {
@@ -412,11 +440,15 @@ func (x *queInst) Observe() Ev {
 	q := x.q
 	pv, pok := q.Peek()
 	full := false
-	if cb, ok := q.(*circularbuffer.Queue[int]); ok {
+	if cb, ok := q.(interface{ Full() bool }); ok {
 		full = cb.Full()
 	}
-	return Ev{"vals": ints(q.Values()), "size": q.Size(), "empty": q.Empty(), "name": firstLine(q.String()),
-		"peek": []any{pv, pok}, "full": full}
+	size := q.Size()
+	vals, name := []int{}, ""
+	if size >= 0 { // (a negative Size() is reported as such: Values() and String() would only panic while allocating)
+		vals, name = ints(q.Values()), firstLine(q.String())
+	}
+	return Ev{"vals": vals, "size": size, "empty": q.Empty(), "name": name, "peek": []any{pv, pok}, "full": full}
 }
 
 func (x *queInst) Do(c Call) []any {
@@ -438,7 +470,7 @@ func (x *queInst) Do(c Call) []any {
 	case "Clear":
 		q.Clear()
 	case "Full":
-		return []any{q.(*circularbuffer.Queue[int]).Full()}
+		return []any{q.(interface{ Full() bool }).Full()}
 	case "Size":
 		return []any{q.Size()}
 	case "Empty":
